@@ -428,3 +428,25 @@ enum UnionState {
     Accumulator(CpcSketch),
     BitMatrix(Vec<u64>),
 }
+
+/// Snapshot of the internal state of a [`CpcUnion`] for the external verification harness
+/// (feature `verif-hooks`). Nothing here changes behaviour.
+#[cfg(feature = "verif-hooks")]
+#[derive(Debug, Clone)]
+pub enum VerifCpcUnionState {
+    /// The union still holds a sparse accumulator sketch.
+    Accumulator(crate::cpc::VerifCpcState),
+    /// The union holds a full `k x 64` bit matrix.
+    BitMatrix(Vec<u64>),
+}
+
+#[cfg(feature = "verif-hooks")]
+impl CpcUnion {
+    /// Verification hook: snapshot of the union's internal state.
+    pub fn verif_state(&self) -> VerifCpcUnionState {
+        match &self.state {
+            UnionState::Accumulator(sketch) => VerifCpcUnionState::Accumulator(sketch.verif_state()),
+            UnionState::BitMatrix(matrix) => VerifCpcUnionState::BitMatrix(matrix.clone()),
+        }
+    }
+}
